@@ -1242,3 +1242,33 @@ def maxprinciple_clause(vals, model, num, limiter, cfl):
                         ok = False
                         break
     return ok
+
+
+def conservation2d_clause(vals, num, bx, by):
+    import flowdyn.mesh2d as mesh2d, flowdyn.modeldisc as md, flowdyn.modelphy.euler as eu, flowdyn.xnum as xnum, flowdyn.field as field
+    ok = True
+    for nx, ny in ((1, 1), (2, 3), (3, 2), (5, 4)):
+        for flux in ("centered", "hlle"):
+            msh = mesh2d.mesh2d(nx, ny, 1.3, 0.7)
+            model = eu.euler2d()
+            nm = xnum.extrapol2d1() if num == "extrapol2d1" else xnum.extrapol2dk(1. / 3.)
+            bc = {"left": {"type": bx}, "right": {"type": bx}, "bottom": {"type": by}, "top": {"type": by}}
+            disc = md.fvm2dcart(model, msh, nm, bc, numflux=flux)
+            rng = np.random.default_rng(nx * 10 + ny)
+            n = nx * ny
+            rho, p = 1 + 0.05 * rng.uniform(-1, 1, n), 1 + 0.05 * rng.uniform(-1, 1, n)
+            V = 0.2 * rng.uniform(-1, 1, (2, n))
+            f = field.fdata(model, msh, model.prim2cons([rho, V, p]))
+            res = disc.rhs(f)
+            vol = msh.vol()
+            for k in (0, 2):
+                I = float(np.sum(res[k] * vol))
+                if abs(I) > 1e-10:
+                    show(num=num, bc=(bx, by), nx=nx, ny=ny, flux=flux, comp=k, integral=I)
+                    ok = False
+            if bx == "per" and by == "per":
+                Im = np.sum(res[1] * vol, axis=1)
+                if np.max(np.abs(Im)) > 1e-10:
+                    show(num=num, nx=nx, ny=ny, flux=flux, momentum_integral=Im.tolist())
+                    ok = False
+    return ok
